@@ -73,6 +73,47 @@ func precReaders(c *Ctx, t *tables, a *parserAnchors) (peekFn, curFn *ssa.Functi
 			}
 		})
 	}
+	if peekFn != nil && curFn != nil {
+		return
+	}
+	// the readers delegate to a shared lookup helper h(tokenType): f returns h(<peek/current token type>)
+	isLookupHelper := func(h *ssa.Function) bool {
+		if h == nil || h.Signature.Results().Len() != 1 {
+			return false
+		}
+		found := false
+		allInstrs(h, func(_ *ssa.BasicBlock, _ int, in ssa.Instruction) {
+			if lk, ok := in.(*ssa.Lookup); ok {
+				if _, ok := isFieldLoad(lk.X, t.pt.precFld); ok {
+					if par, ok := lk.Index.(*ssa.Parameter); ok && par.Parent() == h {
+						found = true
+					}
+				}
+			}
+		})
+		return found
+	}
+	for _, f := range c.libFunctions("parser") {
+		if f.Parent() != nil || f.Signature.Results().Len() != 1 || len(f.Blocks) != 1 {
+			continue
+		}
+		ret, ok := f.Blocks[0].Instrs[len(f.Blocks[0].Instrs)-1].(*ssa.Return)
+		if !ok || len(ret.Results) != 1 {
+			continue
+		}
+		call, ok := ret.Results[0].(*ssa.Call)
+		if !ok || !isLookupHelper(call.Call.StaticCallee()) {
+			continue
+		}
+		for _, arg := range call.Call.Args {
+			if tokenFieldLoad(arg, a.peek, "Type") && peekFn == nil {
+				peekFn = f
+			}
+			if tokenFieldLoad(arg, a.cur, "Type") && curFn == nil {
+				curFn = f
+			}
+		}
+	}
 	return
 }
 
